@@ -202,7 +202,8 @@ Definition plain_param_items (m : mapping) (c : cdef) : list item :=
 Definition plain_items (p : proj) : list item :=
   map (plain_type_item (p_map p)) (p_types p) ++ flat_map (plain_param_items (p_map p)) (p_cmds p).
 
-(* zod/templates/partials/schema.ts.tera, zod/generator.rs generate_enum_schema (no type alias!),
+(* zod/templates/partials/schema.ts.tera, zod/generator.rs generate_enum_schema (since the repair
+   C10-5-zod-enum-alias the constant is followed by the inferred type alias, as for structs),
    param_schemas.ts.tera (isOptional adds a second .optional()), type_aliases.ts.tera *)
 Definition infer_of (n : str) : ty := TyRef [L "z"; L "infer"] [TyTypeof [schema_name n]].
 Definition zod_field (m : mapping) (f : member) : option key * ex := (Some (KeyId (m_key f)), zex_of m (m_ty f) false).
@@ -212,7 +213,8 @@ Definition zod_type_items (m : mapping) (d : tdef) : list item :=
   match d with
   | DStruct s => [IConst (schema_name (s_name s)) (zcall "object" [EObj (map (zod_field m) (s_fields s))]);
                   ITypeAlias (s_name s) [] (infer_of (s_name s))]
-  | DEnum e => [IConst (schema_name (e_name e)) (zcall "enum" [EArr (map (EStr """"%char) (e_variants e))])]
+  | DEnum e => [IConst (schema_name (e_name e)) (zcall "enum" [EArr (map (EStr """"%char) (e_variants e))]);
+                ITypeAlias (e_name e) [] (infer_of (e_name e))]
   end.
 Definition zod_param_schema (m : mapping) (c : cdef) : list item :=
   match c_params c with
